@@ -44,7 +44,7 @@ def scan_sources():
     return {k: sorted(set(v)) for k, v in out.items()}
 
 
-def block(E, k, alphabet, nesting=1, sym_coef=False):
+def block(E, k, alphabet, nesting=1, sym_coef=False, pattern=None):
     env.for_path(E)
     S = State()
     m = base_model(E, sym_coef=sym_coef)
@@ -74,7 +74,10 @@ def block(E, k, alphabet, nesting=1, sym_coef=False):
     names = list(alphabet) + ["end-block"] + (["enter-inner"] if nesting > 1 else [])
     try:
         for step in range(k):
-            name = E.pick("op%d" % step, names)
+            if pattern is not None and pattern[step] is not None:
+                name = pattern[step]
+            else:
+                name = E.pick("op%d" % step, names if pattern is None else list(alphabet))
             if name == "end-block":
                 if len(stack) > 1:
                     leave("inner")
@@ -122,6 +125,15 @@ def c03_k1(E):
 
 def c03_k1_nested(E):
     # enter, enter, op, exit, exit  (the inner exit runs the undo while the outer context is active)
+    block(E, 3, REVERSIBLE, nesting=2, pattern=("enter-inner", None, "end-block"))
+
+
+def c03_outer_then_inner(E):
+    # enter, op, enter, op, exit, exit  over the sub-alphabet: the inner block starts from a modified model
+    block(E, 4, SUB_REV, nesting=2, pattern=(None, "enter-inner", None, "end-block"))
+
+
+def c03_nested_free(E):
     block(E, 3, REVERSIBLE, nesting=2)
 
 
@@ -145,8 +157,13 @@ HARNESSES = [
                                "symbolic coefficients and bounds" % len(REVERSIBLE)),
     H("c03_k2_sub", c03_k2_sub, tiers=("quick",), quick=dict(max_paths=80000, time_budget=80), witness_every=100,
       bounds="one context, all pairs from the sub-alphabet %s" % SUB_REV),
-    H("c03_nested", c03_k1_nested, tiers=("quick",), quick=dict(max_paths=80000, time_budget=80), witness_every=100,
-      bounds="nesting depth 2, up to 3 steps (enter-inner / operation / end-block) over the full reversible alphabet"),
+    H("c03_nested", c03_k1_nested, quick=dict(max_paths=80000, time_budget=60), thorough=dict(max_paths=80000, time_budget=120),
+      witness_every=20, bounds="enter, enter, one operation of the full reversible alphabet, exit, exit"),
+    H("c03_outer_then_inner", c03_outer_then_inner, quick=dict(max_paths=100000, time_budget=80),
+      thorough=dict(max_paths=400000, time_budget=300), witness_every=100,
+      bounds="enter, operation, enter, operation, exit, exit over the sub-alphabet"),
+    H("c03_nested_free", c03_nested_free, tiers=("thorough",), thorough=dict(max_paths=2000000, time_budget=900), witness_every=300,
+      bounds="nesting depth 2, any 3 steps (enter-inner / operation / end-block) over the full reversible alphabet (sampled)"),
     H("c03_k2_full", c03_k2_full, tiers=("thorough",), thorough=dict(max_paths=2000000, time_budget=900), witness_every=300,
       bounds="one context, all pairs of the full reversible alphabet"),
     H("c03_k3_sub", c03_k3_sub, tiers=("thorough",), thorough=dict(max_paths=2000000, time_budget=900), witness_every=300,
